@@ -208,6 +208,19 @@ CHECKS["C15"] = dict(
     design_ref="DESIGN.md#c15",
 )
 
+CHECKS["C17"] = dict(
+    category="exploration",
+    text="Generated documents (OpenAPI 2.0/3.0/3.1) carry unique marker examples at random subsets of the placements the statement "
+    "lists (parameter example/examples and x- forms, parameter-schema example/examples, media-type example/examples incl. $ref'd example "
+    "objects, body-schema example, property-level and anyOf-branch examples) with different counts per parameter, required parameters "
+    "without examples and an operation without any example; every strategy of get_strategies_from_examples is drawn and each marker "
+    "must occur at its place in some case, each case must carry all required inputs and a schema-valid filled-in body; a sample runs "
+    "the real examples phase and reads the API's request log and skip events.",
+    note="Values outside the body are compared up to string coercion; externalValue needs the network and is out of scope.",
+    technique="runtime monitoring: marker (unique id) tracing from document placements to generated cases and received requests",
+    design_ref="DESIGN.md#c17",
+)
+
 NOT_APPLICABLE = {}
 
 
